@@ -26,6 +26,7 @@ class SimFunction:
         self.spec = spec
         self.family = spec["family"]
         self.xs = float(spec.get("xscale", 1.0))      # f(x) = g(x / xscale): the same function on a stretched coordinate axis
+        self.ys = float(spec.get("yscale", 1.0))      # f = yscale * g: the same function in other units (1e-35 m^3/s rates, 1e25 m^-3)
         self.calls = 0
         self.log = None            # list of coordinate tuples when recording
         self.fault_at = {}         # absolute call index -> kind
@@ -42,6 +43,12 @@ class SimFunction:
 
     # ---- pure value -----------------------------------------------------------
     def value(self, *p):
+        if self.ys != 1.0:
+            ys, self.ys = self.ys, 1.0
+            try:
+                return ys * self.value(*p)
+            finally:
+                self.ys = ys
         if self.xs != 1.0:
             p = tuple(v / self.xs for v in p)
         if self.family == "multilinear":
@@ -70,6 +77,12 @@ class SimFunction:
 
     # ---- bounds over a box [(lo, hi)] * dim ------------------------------------
     def abs_bound(self, box):
+        if self.ys != 1.0:
+            ys, self.ys = self.ys, 1.0
+            try:
+                return ys * self.abs_bound(box)
+            finally:
+                self.ys = ys
         m = [max(abs(lo), abs(hi)) / self.xs for lo, hi in box]
         if self.family == "multilinear":
             return sum(abs(c) * math.prod(m[a] for a in axes) for axes, c in self.terms)
@@ -79,6 +92,12 @@ class SimFunction:
 
     def second_derivative_bound(self, box, i, j):
         """max over the box of |d2 f / dx_i dx_j| (an upper bound, cheap and crude)."""
+        if self.ys != 1.0:
+            ys, self.ys = self.ys, 1.0
+            try:
+                return ys * self.second_derivative_bound(box, i, j)
+            finally:
+                self.ys = ys
         if self.xs != 1.0:
             xs, self.xs = self.xs, 1.0
             try:
